@@ -635,20 +635,20 @@ fn field_menus(tier: Tier) -> Vec<Vec<&'static str>> {
         "inf", "2147483648", "-2147483648", "x",
     ];
     let mut sig = vec!["4", "3", "0", "07", "-1", "x", "2147483648"];
-    let mut bank = vec!["1", "0", "2", "3", "4", "-1", "x"];
+    let mut bank = vec!["1", "0", "2", "3", "-1", "4", "x"];
     let mut custom = vec!["0", "2", "-1", "x"];
     let mut vol = vec!["100", "-1", "0", "101", "50", "x"];
     let mut tc = vec!["1", "0", "", "10", "x"];
-    let mut flags = vec!["0", "1", "8", "9", "2", " 1", "x"];
+    let mut flags = vec!["0", "1", "8", "9", "-1", "-8", "2", " 1", "x", "4294967295"];
     if !t {
         time.truncate(6);
         beat.retain(|b| !["-1001", "-10", "-10001", "inf"].contains(b));
         sig.truncate(5);
-        bank.truncate(5);
+        bank.truncate(6);
         custom.truncate(3);
         vol.truncate(5);
         tc.truncate(4);
-        flags.truncate(5);
+        flags.truncate(6);
     }
     vec![time, beat, sig, bank, custom, vol, tc, flags]
 }
